@@ -31,8 +31,8 @@ RULE = (
     'off the canonical choice; each (selector, deviation set) is generated exactly once (families are disjoint) and is parsed stand-alone and '
     '(for <= attach_k deviations) inside two sheets. Non-trivial = the selector was accepted and its item sequence has >= 2 simple-selector '
     'items. lists: breadth-first closure over all SelectorList states with <= L entries reachable by append / appendSelector / [i]= / selectorText= / '
-    'rule.selectorText= with text and Selector-object arguments from a menu with a duplicate spelling and invalid members, '
-    'on a free list, a free rule and a rule in a sheet; every transition is compared with the reference list'
+    'rule.selectorText= with text and Selector-object arguments from a menu with a duplicate spelling and invalid members, in the raising and in the '
+    'log-only error mode, on a free list, a free rule and a rule in a sheet; every transition is compared with the reference list'
 )
 ASSUMPTIONS = [
     'specificity formula exactly as stated: (0, ids, classes+attributes, types+pseudo-elements) over all compound parts incl. the argument of '
@@ -49,14 +49,15 @@ ASSUMPTIONS = [
     'prefix (C15 matter): for attached objects only specificity and membership are judged',
     'lists: identity of a list member = its serialised text with white space removed (the menu has no descendant combinator); a list text that '
     'repeats a member keeps both and [i]= does not de-duplicate (documented by the class); "rejected as a whole" = the list is unchanged, '
-    'whether or not an exception is raised',
+    'whether or not an exception is raised; text operations are run both with cssutils.log.raiseExceptions True (DOM default) and False (the mode every '
+    'parse runs in, where an invalid member is only logged)',
 ]
 FLOORS = {
     'quick': {'outcomes': 500, 'set:specificities': 20, 'set:shapes': 300, 'states': 150, 'transitions': 10000, 'validated': 100000},
     'thorough': {'outcomes': 1000, 'set:specificities': 30, 'set:shapes': 1000, 'states': 1000, 'transitions': 50000, 'validated': 50000},
 }
 
-WD = 5.0  # watchdog seconds per context of a case (a healthy one needs ~1 ms)
+WD = 20.0  # watchdog seconds (wall clock) per context of a case; a healthy one needs ~1 ms, the margin is for a loaded machine
 
 # ----------------------------------------------------------------------------------------
 # (A) the selector space
@@ -383,6 +384,30 @@ def _reductions(sel):
     for i in range(1, n, 2):
         if sel[i] != ' ':
             yield sel[:i] + [' '] + sel[i + 1:]
+    # replace by the neutral compound / by the plainest representative of the same class of simple selector
+    for i in range(0, n, 2):
+        if sel[i] != ['*']:
+            yield sel[:i] + [['*']] + sel[i + 1:]
+        for j, key in enumerate(sel[i]):
+            for simpler in _simpler(key):
+                yield sel[:i] + [sel[i][:j] + [simpler] + sel[i][j + 1:]] + sel[i + 1:]
+
+
+def _simpler(key):
+    s = ref.SIMPLE[key]
+    if isinstance(s, ref.Not):
+        cands = [':not(%s)' % c for c in _simpler(s.inner.key)]
+    elif isinstance(s, ref.Attr):
+        cands = ['[b]']
+    elif isinstance(s, ref.Type):
+        cands = ['*' if s.name == '*' else 'a']
+    elif isinstance(s, ref.PseudoClass):
+        cands = [':hover']
+    elif isinstance(s, ref.PseudoElement):
+        cands = ['::before']
+    else:
+        cands = []
+    return [c for c in cands if c != key and c in ref.SIMPLE]
 
 
 def _minimise(sel, dev_free_attach, clause, symptom):
@@ -634,11 +659,6 @@ def _observe(live):
         return {'entries': entries, 'text': _strip(sl.selectorText), 'length': sl.length, 'ruletext': rt, 'parents': flags, 'parentRule': pr, 'seqs': seqs}
 
 
-def _opname(op):
-    b = _base(op)
-    return b[0] + (':' + b[-1] if b[0] in ('appendSelector', 'set') else '') + (':quiet' if b is not op else '')
-
-
 def _list_diff(want, got):
     if len(got) != len(want):
         return 'longer' if len(got) > len(want) else 'shorter'
@@ -660,14 +680,11 @@ def _rebuild(history, menu):
     return live, model
 
 
-def _step(res, history, op, tier):
+def _list_findings(history, op, tier):
     """one transition: rebuild the state of `history`, apply `op` to the real object and the reference, compare.
-    -> (key, observation) or None if the transition is a violation"""
+    -> (findings [(clause, symptom, expected, observed, note)], info dict | None)"""
     menu = _menu(tier)
     specs = {ident: list(spec) for _, ident, spec in menu if ident is not None}
-    specs.setdefault('a', [0, 0, 0, 1])
-    case = {'kind': 'list', 'history': [list(h) for h in history], 'op': op}
-    res.transitions += 1
     try:
         live, model = _rebuild(history, menu)
         before = list(model.entries)
@@ -675,53 +692,73 @@ def _step(res, history, op, tier):
         accepted = _apply_ref(model, op, menu)
         obs = _observe(live)
     except (Exception, guard.Timeout) as e:
-        res.violation('C16.list.order', _exc_symptom(e, 'observe') + '|op=' + _opname(op), case, 'an observable list', repr(e)[:300])
-        return None
-    res.validated += 1
-    res.evaluations += 1
-    full_op, op = op, _base(op)
+        return [('C16.list.order', _exc_symptom(e, 'observe'), 'an observable list', repr(e)[:300], '')], None
+    b = _base(op)
     want = list(model.entries)
     got = [e[0] for e in obs['entries']]
-    ok = True
-    appended = op[0] in ('append', 'appendSelector') and accepted
     if not accepted:
         clause = 'C16.list.reject'
-    elif appended and menu[op[1]][1] in before:
+    elif b[0] in ('append', 'appendSelector') and menu[b[1]][1] in before:
         clause = 'C16.list.append'
     else:
         clause = 'C16.list.order'
-    res.clauses[clause] += 1
+    f = []
+    note = f'outcome of the operation: {outcome}'
     if outcome == 'timeout' or outcome.startswith('exc:'):
-        res.violation(clause, f'{outcome}|op={_opname(full_op)}', case, 'DOMException or success', outcome)
-        ok = False
+        f.append((clause, outcome, 'DOMException or success', outcome, ''))
     elif accepted and outcome != 'ok':
-        res.violation(clause, f'valid-operation-rejected:{outcome[4:]}|op={_opname(full_op)}', case, want, outcome)
-        ok = False
-    if ok and got != want:
+        f.append((clause, f'valid-operation-rejected:{outcome[4:]}', want, outcome, ''))
+    elif got != want:
         if not accepted:
-            sym = 'state-changed-by-rejected-operation|' + _list_diff(want, got)
+            sym = 'state-changed-by-rejected-operation'
         elif clause == 'C16.list.append':
-            ident = menu[op[1]][1]
-            sym = 'duplicated' if got.count(ident) > 1 else ('not-moved-to-end' if got[-1:] != [ident] else _list_diff(want, got))
-            sym = 'append-present|' + sym
+            ident = menu[b[1]][1]
+            sym = 'append-present|' + ('duplicated' if got.count(ident) > 1 else ('not-moved-to-end' if got[-1:] != [ident] else _list_diff(want, got)))
         else:
             sym = 'list-differs|' + _list_diff(want, got)
-        res.violation(clause, f'{sym}|op={_opname(full_op)}', case, want, got, note=f'outcome of the operation: {outcome}')
-        ok = False
-    if ok:
-        texts_ok = obs['text'] == ','.join(want) and obs['length'] == len(want) and (obs['ruletext'] is None or obs['ruletext'] == obs['text'])
-        if not texts_ok:
-            res.violation(clause, f'list-observers-disagree|op={_opname(full_op)}', case, [','.join(want), len(want)], [obs['text'], obs['length'], obs['ruletext']])
-            ok = False
+        f.append((clause, sym, want, got, note))
+    else:
+        if not (obs['text'] == ','.join(want) and obs['length'] == len(want) and (obs['ruletext'] is None or obs['ruletext'] == obs['text'])):
+            f.append((clause, 'list-observers-disagree', [','.join(want), len(want)], [obs['text'], obs['length'], obs['ruletext']], note))
         bad = [e for e in obs['entries'] if specs.get(e[0]) != e[1]]
         if bad:
-            res.violation('C16.specificity', f'list-entry|{_spec_symptom(specs.get(bad[0][0], [0] * 4), bad[0][1])}|op={_opname(full_op)}', case, specs.get(bad[0][0]), bad[0])
-            ok = False
-    res.outcomes.add(h64((clause, outcome, got)))
-    res.counters['list.' + ('accepted' if accepted else 'rejected') + '.' + ('raised' if outcome != 'ok' else 'silent')] += 1
-    if not ok:
+            f.append(('C16.specificity', 'list-entry|' + _spec_symptom(specs.get(bad[0][0], [0] * 4), bad[0][1]), specs.get(bad[0][0]), bad[0], note))
+    return f, {'clause': clause, 'outcome': outcome, 'accepted': accepted, 'got': got, 'obs': obs}
+
+
+def _op_tag(history, op, tier, clause, symptom):
+    """name of the operation in a signature: argument form / error mode only if the plain form does not show the same"""
+    b = _base(op)
+    name = 'append' if b[0] == 'appendSelector' else b[0]
+
+    def shows(op2):
+        return any(c == clause and s == symptom for c, s, _, _, _ in _list_findings(history, op2, tier)[0])
+
+    quiet = b is not op
+    if b[0] in ('appendSelector', 'set') and b[-1] == 'obj':
+        if not shows(b[:-1] + ['text']):
+            name += ':selector-object'
+    if quiet and not shows(b):
+        name += ':log-only-mode'
+    return name
+
+
+def _step(res, history, op, tier):
+    """-> (key, observation) or None if the transition is a violation"""
+    case = {'kind': 'list', 'history': [list(h) for h in history], 'op': op}
+    res.transitions += 1
+    f, info = _list_findings(history, op, tier)
+    if info is not None:
+        res.validated += 1
+        res.evaluations += 1
+        res.clauses[info['clause']] += 1
+        res.outcomes.add(h64((info['clause'], info['outcome'], info['got'])))
+        res.counters['list.' + ('accepted' if info['accepted'] else 'rejected') + '.' + ('raised' if info['outcome'] != 'ok' else 'silent')] += 1
+    for clause, symptom, e, o, note in f:
+        res.violation(clause, f'{symptom}|op={_op_tag(history, op, tier, clause, symptom)}', case, e, o, note=note)
+    if f or info is None:
         return None
-    return jdump([history[0][1], obs]), obs
+    return jdump([history[0][1], info['obs']]), info['obs']
 
 
 def expand(batch, tier, seed):
